@@ -10,3 +10,20 @@ SERIES = Slice(
     observe=("vf.obs_pandas", "observe_series"),
     cap={"quick": 12000, "thorough": 0},
 )
+
+
+def frame_slice(name: str, cap_quick: int = 6000) -> Slice:
+    return Slice(
+        name="Frame." + name,
+        module="MC_Frame",
+        cfg={"quick": "mc/MC_Frame_%s_quick.cfg" % name, "thorough": "mc/MC_Frame_%s_thorough.cfg" % name},
+        observe=("vf.obs_pandas", "observe_frame"),
+        cap={"quick": cap_quick, "thorough": 0},
+    )
+
+
+CONTAINER = frame_slice("container")
+COLUMNS = frame_slice("columns")
+JOINT = frame_slice("joint")
+INDEX = frame_slice("index")
+FRAME_SLICES = [CONTAINER, COLUMNS, JOINT, INDEX]
